@@ -57,6 +57,8 @@ func genC05(t *rapid.T) *C05Case {
 	c.Cfg = rig.Cfg{Role: role, HBMin: 1, HBMax: 60, HBInt: c.N, Methods: []string{"0"}, Approve: "all",
 		CloseTimeoutMs: 100, Buf: rapid.SampledFrom([]int{0, 1, 10}).Draw(t, "buf"),
 		Sender: "LIB", Target: "PEER", User: "alice", Pass: "secret"}
+	// the session option Location: the zone in which SendingTime is written
+	c.Cfg.Location = rapid.SampledFrom([]string{"", "", "UTC", "America/New_York", "Asia/Kolkata", "Pacific/Chatham"}).Draw(t, "location")
 	for i := rapid.IntRange(1, 6).Draw(t, "nStoreDelays"); i > 0; i-- {
 		c.StoreDelays = append(c.StoreDelays, rapid.SampledFrom(delayChoices).Draw(t, "storeDelay"))
 	}
@@ -386,7 +388,13 @@ func checkC05(c *C05Case, rec *evid.Rec) (vs []pbt.Violation) {
 				vs = append(vs, pbt.V("sending-time-format", "message #%d carries SendingTime %q", n, st))
 				continue
 			}
-			tm, err := time.Parse("20060102-15:04:05.000", st)
+			loc := time.UTC
+			if c.Cfg.Location != "" {
+				if l, lerr := time.LoadLocation(c.Cfg.Location); lerr == nil {
+					loc = l
+				}
+			}
+			tm, err := time.ParseInLocation("20060102-15:04:05.000", st, loc)
 			if err != nil {
 				vs = append(vs, pbt.V("sending-time-format", "message #%d: SendingTime %q is not an instant: %v", n, st, err))
 				continue
@@ -411,6 +419,9 @@ func checkC05(c *C05Case, rec *evid.Rec) (vs []pbt.Violation) {
 	nontrivial := overlap || timerDriven > 0
 	rec.Case(evid.FPs(fmt.Sprint(c.Cfg.Role, c.N, c.Cfg.Buf, c.StoreDelays, c.HandlerDelays, c.Sessions)), nontrivial)
 	rec.Hist("role:" + c.Cfg.Role)
+	if c.Cfg.Location != "" && c.Cfg.Location != "UTC" {
+		rec.Hist("location-not-utc")
+	}
 	rec.Hist(fmt.Sprintf("sessions=%d", len(c.Sessions)))
 	if c.BadLogonFirst {
 		rec.Hist("reject-before-logon-on-the-wire")
